@@ -50,6 +50,29 @@ func main() {
 		fmt.Printf("VIOLATION property=%s replay=%s\n", *prop, filepath.Join(*verif, "replays", *prop+"-timeout.json"))
 		os.Exit(1)
 	})
+	// several properties can share one load (-prop C01,C02,...): used by the tools, not by the registered commands
+	props := strings.Split(*prop, ",")
+	if len(props) > 1 {
+		c, err := loadRepo(LoadOpts{Repo: *repo, GOOS: *goos, GOARCH: *goarch})
+		exit := 0
+		for _, p := range props {
+			rf, ok := rules[p]
+			if !ok {
+				fmt.Printf("unknown property %q\n", p)
+				os.Exit(2)
+			}
+			r := newReport(p, *tier)
+			if err != nil {
+				r.Undecided(p+".internal:load", "", "cannot load %s: %v", *repo, err)
+			} else {
+				runRule(rf, c, r)
+			}
+			if e := r.finish(finishOpts{verifDir: *verif, start: start, seed: seed, noWrite: *noWrite}); e > exit {
+				exit = e
+			}
+		}
+		os.Exit(exit)
+	}
 	rf, ok := rules[*prop]
 	if !ok {
 		fmt.Printf("unknown property %q\n", *prop)
